@@ -381,6 +381,86 @@ WARN_COUNTERS = [("ri_whfast", "_timestep_warning"), ("ri_whfast", "_recalculate
                  (None, "_odes_warnings"), ("ri_ias15", "_iterations_max_exceeded"), (None, "_var_rescale_warning")]
 
 
+def bs_option_checks(seed, tier):
+    """The documented BS step-size options ri_bs.min_dt / ri_bs.max_dt (and eps_abs / eps_rel extremes) with the requested step
+    below, equal to and above them: for BS as the N-body integrator, for a user ODE next to every other N-body integrator,
+    and for TRACE's BS pericentre modes.  Oracle: the same exact-solution / IAS15-reference comparison as elsewhere; a limit on the
+    step size may cost time but must not cost accuracy: error <= 10 x the error of the same run without the option (+ floor)."""
+    out = []
+    rng = random.Random(seed ^ 0xb5)
+    T = 2.0
+    # ---- BS integrates the N-body system
+    ref = reference(seed, T, False, 1.0)
+    refb = reference(seed, -T, False, 1.0)
+    def bs_run(sign, dt0, eps, min_dt, max_dt):
+        progress("bs-options/nbody", system_seed=seed, T=sign * T, dt0=sign * dt0, eps=eps, min_dt=min_dt, max_dt=max_dt)
+        sim = make_system(seed); sim.integrator = "bs"
+        sim.ri_bs.eps_rel = eps; sim.ri_bs.eps_abs = eps; sim.ri_bs.min_dt = min_dt; sim.ri_bs.max_dt = max_dt
+        sim.dt = sign * dt0
+        sim.integrate(sign * T, exact_finish_time=1)
+        return err(state(sim), ref if sign > 0 else refb)
+    for eps in (1e-6, 1e-10, 1e-13):
+        base = {sg: bs_run(sg, 0.05, eps, 0.0, 0.0) for sg in (1, -1)}
+        for max_dt in (0.02, 0.05, 0.3):
+            for dt0 in (0.5 * max_dt, max_dt, 7.0 * max_dt):
+                for sg in ((1, -1) if tier != "quick" or dt0 > max_dt else (1,)):
+                    e = bs_run(sg, dt0, eps, 0.0, max_dt)
+                    out.append({"name": "bs-options/nbody/max_dt", "system_seed": seed, "errors": [e, base[sg]], "ok": e == e and e <= max(10 * base[sg] + 1e-11, 30 * eps),
+                                "options": {"eps": eps, "max_dt": max_dt, "dt0": sg * dt0, "T": sg * T}})
+        for min_dt in (1e-6, 1e-3):
+            for dt0 in (0.5 * min_dt, min_dt, 50 * min_dt):
+                e = bs_run(1, dt0, eps, min_dt, 0.0)
+                out.append({"name": "bs-options/nbody/min_dt", "system_seed": seed, "errors": [e, base[1]], "ok": e == e and e <= max(10 * base[1] + 1e-11, 30 * eps),
+                            "options": {"eps": eps, "min_dt": min_dt, "dt0": dt0, "T": T}})
+        e = bs_run(1, 0.2, eps, 1e-4, 0.1)
+        out.append({"name": "bs-options/nbody/min_dt+max_dt", "system_seed": seed, "errors": [e, base[1]], "ok": e == e and e <= max(10 * base[1] + 1e-11, 30 * eps),
+                    "options": {"eps": eps, "min_dt": 1e-4, "max_dt": 0.1, "dt0": 0.2}})
+    # ---- a user ODE (harmonic oscillator) next to every N-body integrator, BS sub-stepper limited by max_dt / min_dt
+    def osc(integ, dt, w, eps, sign, min_dt, max_dt):
+        progress("bs-options/ode/%s" % integ, system_seed=seed, integrator=integ, dt=sign * dt, omega=w, T=sign * 1.0, eps=eps, min_dt=min_dt, max_dt=max_dt)
+        sim = make_system(seed); sim.integrator = integ
+        if integ == "saba":
+            sim.ri_saba.type = 6
+        sim.dt = sign * dt
+        sim.ri_bs.eps_rel = eps; sim.ri_bs.eps_abs = eps; sim.ri_bs.min_dt = min_dt; sim.ri_bs.max_dt = max_dt
+        ode = sim.create_ode(length=2, needs_nbody=False)
+        def rhs(ode, yDot, y, t):
+            yDot[0] = y[1]; yDot[1] = -w * w * y[0]
+        ode.derivatives = rhs
+        ode.y[0] = 1.0; ode.y[1] = 0.0
+        sim.integrate(sign * 1.0, exact_finish_time=1)
+        return math.hypot(ode.y[0] - math.cos(w * sim.t), ode.y[1] / w + math.sin(w * sim.t))
+    for integ in ("whfast", "saba", "leapfrog", "mercurius", "ias15", "trace", "eos", "janus", "bs"):
+        dt = 0.05
+        for w in (2.0, 40.0):
+            b0 = osc(integ, dt, w, 1e-9, 1, 0.0, 0.0)
+            for max_dt in (dt / 3.0, dt, 4.0 * dt):
+                for sg in (1, -1):
+                    e = osc(integ, dt, w, 1e-9, sg, 0.0, max_dt)
+                    out.append({"name": "bs-options/ode/%s/max_dt" % integ, "system_seed": seed, "errors": [e, b0], "ok": e == e and e <= 10 * b0 + 1e-9,
+                                "options": {"integrator": integ, "dt": sg * dt, "omega": w, "max_dt": max_dt}})
+            e = osc(integ, dt, w, 1e-9, 1, 1e-5, 0.0)
+            out.append({"name": "bs-options/ode/%s/min_dt" % integ, "system_seed": seed, "errors": [e, b0], "ok": e == e and e <= 10 * b0 + 1e-9,
+                        "options": {"integrator": integ, "dt": dt, "omega": w, "min_dt": 1e-5}})
+    # ---- TRACE with its BS pericentre modes on an eccentric orbit (the pericentre passage is handed to BS)
+    def trace_run(peri_mode, max_dt, dt):
+        progress("bs-options/trace", system_seed=seed, peri_mode=peri_mode, max_dt=max_dt, dt=dt)
+        sim = rebound.Simulation(); sim.add(m=1.0); sim.add(m=1e-4, a=1.0, e=0.92, f=-2.2); sim.add(m=1e-4, a=4.0, e=0.05, f=1.0); sim.move_to_com()
+        sim.integrator = "trace"; sim.ri_trace.peri_mode = peri_mode; sim.dt = dt
+        sim.ri_bs.max_dt = max_dt
+        sim.integrate(3.0, exact_finish_time=1)
+        return state(sim)
+    r3 = rebound.Simulation(); r3.add(m=1.0); r3.add(m=1e-4, a=1.0, e=0.92, f=-2.2); r3.add(m=1e-4, a=4.0, e=0.05, f=1.0); r3.move_to_com()
+    r3.integrator = "ias15"; r3.integrate(3.0, exact_finish_time=1); ref3 = state(r3)
+    for pm in (0, 1):
+        b0 = err(trace_run(pm, 0.0, 0.02), ref3)
+        for max_dt in (0.005, 0.02, 0.1):
+            e = err(trace_run(pm, max_dt, 0.02), ref3)
+            out.append({"name": "bs-options/trace/peri_mode=%d/max_dt" % pm, "system_seed": seed, "errors": [e, b0], "ok": e == e and e <= 10 * b0 + 1e-9,
+                        "options": {"peri_mode": pm, "max_dt": max_dt, "dt": 0.02}})
+    return out
+
+
 def reset_warn_counters(sim):
     for sub, f in WARN_COUNTERS:
         setattr(getattr(sim, sub) if sub else sim, f, 0)
@@ -780,7 +860,7 @@ def main():
                     failures.append(rec)
         if not only:
             extra = []
-            for gname, fn in (("adaptive", lambda: adaptive_checks(ss, T0)), ("ode", lambda: ode_checks(ss, tier)), ("warn", lambda: warn_once_checks(ss, tier)),
+            for gname, fn in (("adaptive", lambda: adaptive_checks(ss, T0)), ("ode", lambda: ode_checks(ss, tier)), ("bsopt", lambda: bs_option_checks(ss, tier)), ("warn", lambda: warn_once_checks(ss, tier)),
                               ("history", lambda: history_checks(ss, tier)), ("corners", lambda: corner_checks(ss, tier))):
                 if group in (None, gname):
                     extra += fn()
